@@ -57,6 +57,7 @@ type Finding struct {
 	Src      string            `json:"src,omitempty"`
 	Ord      int               `json:"ord,omitempty"`
 	Tags     map[string]string `json:"tags,omitempty"`
+	Notes    map[string]string `json:"notes,omitempty"`
 	Msg      string            `json:"msg,omitempty"`
 	Pos      string            `json:"pos,omitempty"`
 	Stack    []string          `json:"stack,omitempty"`
@@ -122,6 +123,7 @@ type Exec struct {
 	stack     []*Frame
 	depth     int
 	tags      map[string]string
+	notes     map[string]string
 	nondetSeq map[string]int
 	inputs    []*Term // declared symbolic inputs, in order
 	inputSet  map[string]bool
@@ -439,6 +441,9 @@ func copyTags(m map[string]string) map[string]string {
 func (ex *Exec) report(f *Finding, m Model) {
 	f.Harness = ex.harness.Name
 	f.Property = ex.harness.Property
+	if len(ex.notes) > 0 {
+		f.Notes = copyTags(ex.notes)
+	}
 	if m != nil {
 		f.Model = map[string]string{}
 		for _, in := range ex.inputs {
